@@ -270,11 +270,25 @@ def _scale(kind, n, f0, step):
     return f0 + k * step if kind == "lin" else f0 * step ** k
 
 
+def _lin_noise(fc):
+    """how far the float centres of a linear scale are from equally spaced (relative to the
+    step).  The docstring gives no tolerance for 'linear'; the property is decided for scales
+    that are linear to 1e-13 (centre/step up to a few hundred); beyond that rounding of the
+    centres themselves becomes visible and the case is labelled and skipped."""
+    if len(fc) < 3:
+        return 0.0
+    d = np.diff(fc)
+    return float(np.abs(d / d[0] - 1).max())
+
+
 def oracle_rescale(case, R):
     from pyyeti import psd
     fin = case["fin"]
     F = _scale(fin["kind"], fin["n"], fin["f0"], fin["step"])
     kin = "lin" if (fin["kind"] == "lin" or fin["n"] == 2) else "log"
+    if kin == "lin" and _lin_noise(F) > 1e-13:
+        R.label("skip:obs_linear_scale_not_representable_to_1e-13")
+        return
     FLin, FUin = ref.band_edges(F, kin)
     cols = case["cols"]
     rng = np.random.default_rng(case["seed"])
@@ -317,6 +331,9 @@ def oracle_rescale(case, R):
             R.label("skip:short_scale")
             return
         kout = "lin" if (out["kind"] == "lin" or len(fsel) == 2) else "log"
+        if kout == "lin" and _lin_noise(fsel) > 1e-13:
+            R.label("skip:obs_linear_scale_not_representable_to_1e-13")
+            return
         FLo, FUo = ref.band_edges(fsel, kout)
         i0, i1, amb = ref.select_bands(FLo, FUo, F[0], F[-1])
         if i0 is None or i1 - i0 < 1:
@@ -381,7 +398,9 @@ def oracle_rescale(case, R):
     if amp.max() > 1e6:
         R.label("skip:end_band_barely_covered")
         return
-    tol = 1e-13 * (cum + P.max(axis=0) * np.abs(FU).reshape(-1, 1)) * amp
+    # (scales are admitted when linear to 1e-13, which alone moves an edge by ~1e-13 of a step;
+    # 1e-12 leaves a factor ~10 over the worst deviation seen in 56000 thorough cases)
+    tol = 1e-12 * (cum + P.max(axis=0) * np.abs(FU).reshape(-1, 1)) * amp
     e_ms = np.abs(ms - msref) / tol
     e_p = np.abs(Pout - Pref) * width / tol
     _metric(R, "ms_err/tol", e_ms.max())
@@ -557,7 +576,8 @@ def oracle_resample(case, R):
         m = d.mean()
         scale = np.abs(d - m).max()
         if kind == "const":
-            e = np.abs(y - d[0]).max() / (64 * EPS * max(abs(d[0]), 1e-300))
+            # mean of n equal values, its removal and re-addition: a few ulp each
+            e = np.abs(y - d[0]).max() / (512 * EPS * max(abs(d[0]), 1e-300))
             _metric(R, "const_err/tol", e)
             R.check(e <= 1, "constant_not_reproduced",
                     f"c={d[0]!r} n={n} p={p} q={q} pts={pts}: max dev {np.abs(y - d[0]).max():.3e}")
